@@ -487,6 +487,11 @@ func (g *gen) sels(parent string, depth int, root bool) []*Sel {
 			if p := g.distinctObjectsPattern(parent); p != nil {
 				out = append(out, p...)
 			}
+		case k >= 28 && k < 32 && !leafOnly:
+			// a pair of mergeable selections carrying repeated applications of a repeatable directive
+			if p := g.repDirPattern(parent); p != nil {
+				out = append(out, p...)
+			}
 		case k < 36 || td == nil || td.Kind == "union":
 			out = append(out, g.field(parent, nil, depth, false))
 		default:
